@@ -373,6 +373,92 @@ pub fn repo_level(seed: u64) -> String {
 // ------------------------------------------------------------------------------------------ generator
 
 pub fn generate(thorough: bool, rng: &mut Rng, ops: &mut Vec<String>, stats: &mut Stats) {
+    // two handles strictly alternating: every operation of the cached handle is preceded by a change made through the
+    // uncached handle (a new file, a removal, an overwrite with another size) of a type the cache keeps, so the cache
+    // is stale between every pair of cached operations
+    let n_alt = if thorough { 1500 } else { 150 };
+    for _ in 0..n_alt {
+        let n = if thorough { rng.range(4, 30) } else { rng.range(3, 14) } as usize;
+        let mut live: Vec<(u8, String, usize)> = Vec::new();
+        let mut gone: Vec<(u8, String, usize)> = Vec::new();
+        let mut steps: Vec<String> = Vec::new();
+        for _ in 0..n {
+            let t = *rng.pick(&[1u8, 3, 3, 4]);
+            let cb = u8::from(t == 4);
+            // --- the other process
+            let (ut, uid, ulen) = match rng.below(4) {
+                0 | 1 => {
+                    stats.hit("alt.u-write-new");
+                    let id = hex::encode(rng.bytes(32));
+                    let len = *rng.pick(&[0usize, 1, 7, 40, 300]);
+                    steps.push(format!("w,u,{t},{id},{cb},{}", if len > 64 { format!("g{}.{len}", rng.below(1 << 30)) } else { hex(&rng.bytes(len)) }));
+                    live.push((t, id.clone(), len));
+                    (t, id, len)
+                }
+                2 if !live.is_empty() => {
+                    stats.hit("alt.u-remove");
+                    let i = rng.below(live.len() as u64) as usize;
+                    let (t, id, len) = live.remove(i);
+                    steps.push(format!("d,u,{t},{id},{}", u8::from(t == 4)));
+                    gone.push((t, id.clone(), len));
+                    (t, id, len)
+                }
+                _ if !live.is_empty() => {
+                    stats.hit("alt.u-overwrite-other-size");
+                    let i = rng.below(live.len() as u64) as usize;
+                    let (t, id, len) = live[i].clone();
+                    let nl = len + 1 + rng.below(5) as usize;
+                    steps.push(format!("w,u,{t},{id},{},g{}.{nl}", u8::from(t == 4), rng.below(1 << 30)));
+                    live[i].2 = nl;
+                    (t, id, nl)
+                }
+                _ => {
+                    stats.hit("alt.u-write-new");
+                    let id = hex::encode(rng.bytes(32));
+                    steps.push(format!("w,u,{t},{id},{cb},0102030405"));
+                    live.push((t, id.clone(), 5));
+                    (t, id, 5)
+                }
+            };
+            // --- the cached handle: usually lists first, then reads the file the other process just touched (or another)
+            if rng.chance(3, 4) {
+                stats.hit("alt.c-list");
+                steps.push(format!("l,c,{ut}"));
+            }
+            let (rt, rid, rlen) = if rng.chance(2, 3) {
+                (ut, uid, ulen)
+            } else if !gone.is_empty() && rng.chance(1, 2) {
+                rng.pick(&gone).clone()
+            } else if !live.is_empty() {
+                rng.pick(&live).clone()
+            } else {
+                (ut, uid, ulen)
+            };
+            match rng.below(5) {
+                0 | 1 => {
+                    stats.hit("alt.c-read-full");
+                    steps.push(format!("r,c,{rt},{rid}"));
+                }
+                2 | 3 => {
+                    stats.hit("alt.c-read-partial");
+                    let off = rng.below(rlen as u64 + 1) as usize;
+                    let l = if rng.chance(1, 5) { rlen - off + 1 } else { rng.below((rlen - off) as u64 + 1) as usize };
+                    steps.push(format!("p,c,{rt},{rid},{},{off},{l}", u8::from(rt == 4)));
+                }
+                _ => {
+                    stats.hit("alt.c-remove");
+                    steps.push(format!("d,c,{rt},{rid},{}", u8::from(rt == 4)));
+                    live.retain(|(a, b, _)| !(*a == rt && *b == rid));
+                }
+            }
+        }
+        for t in [1, 3, 4] {
+            steps.push(format!("l,c,{t}"));
+        }
+        steps.push("f".into());
+        steps.push("b".into());
+        ops.push(format!("c19 hist {}", steps.join(";")));
+    }
     let n_hist = if thorough { 4000 } else { 500 };
     for _ in 0..n_hist {
         let n = if thorough { rng.range(4, 45) } else { rng.range(3, 25) } as usize;
